@@ -724,10 +724,47 @@ func bankRules() {
 				ss, r, ds, ss, r, cc.arg(2), ds, ss, r, cc.arg(2), ds, ss, r, ds, ss, r, cc.arg(2), ds, ss, r, ss, r))
 			return []string{r}, true
 		}
+		extRules[s+"GetValidatorDelegations"] = func(cc *callCtx) ([]string, bool) {
+			e := cc.e
+			g := e.g()
+			ss := g.SortOf(cc.resType(0))
+			ds := g.sliceElem[ss]
+			g.DeclFun("hasDelegation", []string{sortAddr, sortAddr}, "Bool")
+			g.DeclFun("delegationShares", []string{sortAddr, sortAddr}, "Int")
+			g.DeclFun("valAddrStr", []string{sortAddr}, sortStr)
+			g.DeclFun("delegationsTo", []string{sortAddr}, ss)
+			r := cc.def("vdels", ss, fmt.Sprintf("(delegationsTo %s)", cc.arg(2)))
+			e.typeInv(r, cc.resType(0), 0)
+			// every returned entry is a delegation to this validator by a well-formed delegator address
+			e.r.assume(fmt.Sprintf("(forall ((i!d Int)) (! (=> (and (<= 0 i!d) (< i!d (%s_len %s))) (and (= (%s_ValidatorAddress (select (%s_arr %s) i!d)) (valAddrStr %s)) (validAddr (%s_DelegatorAddress (select (%s_arr %s) i!d))) (hasDelegation (addrOf (%s_DelegatorAddress (select (%s_arr %s) i!d))) %s) (= (%s_Shares (select (%s_arr %s) i!d)) (delegationShares (addrOf (%s_DelegatorAddress (select (%s_arr %s) i!d))) %s)))) :pattern ((select (%s_arr %s) i!d))))",
+				ss, r, ds, ss, r, cc.arg(2), ds, ss, r, ds, ss, r, cc.arg(2), ds, ss, r, ds, ss, r, cc.arg(2), ss, r))
+			return []string{r}, true
+		}
+		// Delegation(ctx, del, val) returns the DelegationI interface: an opaque handle whose shares are those of the pair
+		// (nil when there is no such delegation: a later GetShares() panics)
+		extRules[s+"Delegation"] = func(cc *callCtx) ([]string, bool) {
+			e := cc.e
+			g := e.g()
+			g.DeclFun("hasDelegation", []string{sortAddr, sortAddr}, "Bool")
+			g.DeclFun("delegationShares", []string{sortAddr, sortAddr}, "Int")
+			g.DeclFun("dlgShares", []string{"Int"}, "Int")
+			h := e.havocSort("Int", "dlg")
+			e.r.assume(fmt.Sprintf("(= (= %s 0) (not (hasDelegation %s %s)))", h, cc.arg(2), cc.arg(3)))
+			e.r.assume(fmt.Sprintf("(=> (not (= %s 0)) (= (dlgShares %s) (delegationShares %s %s)))", h, h, cc.arg(2), cc.arg(3)))
+			return []string{h}, true
+		}
 		extRules[s+"BondDenom"] = func(cc *callCtx) ([]string, bool) {
 			cc.e.g().DeclFun("BondDenom", nil, sortStr)
 			return []string{"BondDenom"}, true
 		}
+	}
+}
+
+func init() {
+	extRules["(github.com/cosmos/cosmos-sdk/x/staking/types.DelegationI).GetShares"] = func(cc *callCtx) ([]string, bool) {
+		cc.e.g().DeclFun("dlgShares", []string{"Int"}, "Int")
+		cc.e.panicIf(fmt.Sprintf("(= %s 0)", cc.arg(0)), "DelegationI.GetShares on a nil delegation", cc.ins)
+		return []string{fmt.Sprintf("(dlgShares %s)", cc.arg(0))}, true
 	}
 }
 
